@@ -32,6 +32,14 @@ func configs08(tier string) []xplore.Config {
 		bound = 2
 		scripts = append(scripts, []wop{{"upd", "a/b"}, {"upd", "a/c"}, {"upd", "a/d"}, {"upd", "a/b"}, {"del", "a/c"}, {"upd", "a/d"}})
 	}
+	// leaf-set size: a permanently stalled subscriber and 1500 distinct pending
+	// leaves (default schedule only; the point is that no capacity anywhere
+	// between the feed and the stalled sender makes the writer wait)
+	var many []wop
+	for i := 0; i < 1500; i++ {
+		many = append(many, wop{"upd", fmt.Sprintf("a/l%d", i)})
+	}
+	out = append(out, xplore.Config{Name: "A stall=permanent updates_only=true | B normal | W=1500 distinct leaves", Bound: 0, Data: cfg08{"permanent", true, many, false}})
 	for _, st := range []string{"never", "transient", "permanent"} {
 		for _, uo := range []bool{true, false} {
 			for si, sc := range scripts {
@@ -49,7 +57,11 @@ func configs08(tier string) []xplore.Config {
 func run08(cfg xplore.Config, ch vrt.Chooser, trace bool) (xplore.Outcome, *vrt.Result) {
 	d := cfg.Data.(cfg08)
 	var out xplore.Outcome
-	res := vrt.Run(ch, vrt.Options{Trace: trace, EarlyTimers: true}, func() {
+	maxSteps := 0
+	if len(d.script) > 100 {
+		maxSteps = 2000000
+	}
+	res := vrt.Run(ch, vrt.Options{Reverse: cfg.Reverse, Trace: trace && maxSteps == 0, EarlyTimers: true, MaxSteps: maxSteps}, func() {
 		var opts []subscribe.Option
 		if d.stats {
 			opts = append(opts, subscribe.WithStats())
@@ -101,6 +113,15 @@ func run08(cfg xplore.Config, ch vrt.Chooser, trace bool) (xplore.Outcome, *vrt.
 			viol(&out, "other-subscriber-ended", "B ended with %v while A was stalled", b.status)
 		} else {
 			checkStream04(&out, w, cfg04{writers: []writer{{"t1", d.script}}}, 1, b)
+			if len(d.script) < 100 {
+				bc := map[string]int{}
+				for _, o := range d.script {
+					if o.kind == "upd" {
+						bc["t1|"+o.path]++
+					}
+				}
+				checkDups(&out, false, b, bc)
+			}
 		}
 		updCount := map[string]int{}
 		for _, o := range d.script {
@@ -114,7 +135,7 @@ func run08(cfg xplore.Config, ch vrt.Chooser, trace bool) (xplore.Outcome, *vrt.
 				viol(&out, "stream-ended", "A (never stalled) ended with %v", a.status)
 			} else {
 				checkStream04(&out, w, cfg04{writers: []writer{{"t1", d.script}}}, 0, a)
-				checkDups(&out, d, a, updCount)
+				checkDups(&out, d.updatesOnly, a, updCount)
 			}
 		case "transient":
 			if timedOut(a) {
@@ -125,7 +146,7 @@ func run08(cfg xplore.Config, ch vrt.Chooser, trace bool) (xplore.Outcome, *vrt.
 				break
 			}
 			checkStream04(&out, w, cfg04{writers: []writer{{"t1", d.script}}}, 0, a)
-			checkDups(&out, d, a, updCount)
+			checkDups(&out, d.updatesOnly, a, updCount)
 		case "permanent":
 			if !timedOut(a) {
 				if a.returned {
@@ -197,7 +218,7 @@ func run08(cfg xplore.Config, ch vrt.Chooser, trace bool) (xplore.Outcome, *vrt.
 // started, the sum of (1 + duplicates) over a leaf's update responses equals
 // the number of updates the writer made to it, and the last response carries
 // the newest value.
-func checkDups(out *xplore.Outcome, d cfg08, st *fstream, updCount map[string]int) {
+func checkDups(out *xplore.Outcome, updatesOnly bool, st *fstream, updCount map[string]int) {
 	sum := map[string]int{}
 	last := map[string]string{}
 	for _, r := range st.log {
@@ -211,7 +232,7 @@ func checkDups(out *xplore.Outcome, d cfg08, st *fstream, updCount map[string]in
 	}
 	for k, want := range updCount {
 		w := want
-		if !d.updatesOnly && k == "t1|a/b" {
+		if !updatesOnly && k == "t1|a/b" {
 			w++ // the walk inserted the initial leaf once
 		}
 		if sum[k] != w {
